@@ -122,3 +122,9 @@ consts_of = lambda c: dict(NE=c['max_elems'], P=c['parallelism'], SyncCons=c['co
 def replay(v):
     import sys as _s
     return amod.replay_node(_s.modules[__name__], v)
+
+
+def canaries(tier, seed):
+    r = run("quick", seed, mutant="map_async_no_lock", only_validate=True)
+    n = [v for v in r.violations if v["signature"].get("kind") not in ("premature-callback", "parallelism-exceeded")]
+    return [dict(name="mutant:map_async_no_lock", detected=bool(n), rejected=len(n))]
